@@ -167,6 +167,10 @@ def check_read_record(ck, rec, kinds=("str", "list")):
             f0 = rec["find"][pi][0][0]
             ck.expect(f"find({L}, {P})", ("val", f0), "find")
             ck.expect(f"{P} in {L}", ("val", f0 >= 0), "in-vs-find")      # (C18 also covers strings)
+            # the position does not depend on what the caller calls its own things: names the library uses for
+            # its defaults and helpers (identity, compare, key, equals ...) bound by the program, in the frame of the call
+            ck.expect(f"def c15f_(identity, part) do def compare = 7; def key = [1]; def equals(a, b) FALSE; "
+                      f"[find({L}, {P}), find_last({L}, {P})] end; c15f_(fn(x) 2 * x, 4)", ("val", ("list", (f0, fl))), "find-under-bound-names")
             if kind == "str":
                 for st in range(0, n + 1):
                     f, g = rec["find"][pi][st]
